@@ -187,8 +187,6 @@ def grid(ctx):
               9: (9, k, n), 10: (10, False, [k, b"z"], n), 11: (11, k, rng.choice(DELTAS[:3]), False), 12: (12, k, rng.choice(DELTAS[:3]), False),
               13: (13, k, e, n)}[code]
         out.append((c, op))
-    if ctx.quick:
-        out = out[::2]
     out = must + out
     # with the pickle serde only bytes/str/int values are inside the model's (and this oracle's) domain
     from harness import gens
